@@ -22,6 +22,8 @@ func (harness) Configs(tier string) []xplore.Config {
 		return configs04(tier)
 	case "C01":
 		return configs01(tier)
+	case "C06":
+		return configs06(tier)
 	case "C05":
 		return xplore.WithReverse(configs05(tier))
 	case "C07":
@@ -30,6 +32,8 @@ func (harness) Configs(tier string) []xplore.Config {
 		return xplore.WithReverse(configs08(tier))
 	case "C14":
 		return xplore.WithReverse(configs14(tier))
+	case "C03":
+		return xplore.WithReverse(configs03(tier))
 	case "C12":
 		return configs12(tier)
 	}
@@ -38,7 +42,7 @@ func (harness) Configs(tier string) []xplore.Config {
 
 func (harness) Run(cfg xplore.Config, ch vrt.Chooser, trace bool) (xplore.Outcome, *vrt.Result) {
 	switch *prop {
-	case "C04", "C01":
+	case "C04", "C01", "C06":
 		return run04(cfg, ch, trace)
 	case "C05":
 		return run05(cfg, ch, trace)
@@ -46,7 +50,7 @@ func (harness) Run(cfg xplore.Config, ch vrt.Chooser, trace bool) (xplore.Outcom
 		return run07(cfg, ch, trace)
 	case "C08":
 		return run08(cfg, ch, trace)
-	case "C14":
+	case "C14", "C03":
 		return run14(cfg, ch, trace)
 	case "C12":
 		return run12(cfg, ch, trace)
